@@ -247,7 +247,10 @@ impl Check for C01 {
                 }
                 out.label(format!("value:{}", src));
                 if Tri::from_bool(got) != expected {
-                    let sig = explain(&case.env, d, v, Mode::Open, got).unwrap_or("c01_membership");
+                    // types that went through the semantic engine (Exclude spelling) inherit its known findings
+                    // (C07: containers over empty types judged empty, `any` closed to the engine's universe)
+                    let fallback = if case.used.contains_key("exclude") { "c01_membership:program_uses_exclude" } else { "c01_membership" };
+                    let sig = explain(&case.env, d, v, Mode::Open, got).unwrap_or(fallback);
                     let what = format!(
                         "validator for {} {} a value the type {}",
                         name,
